@@ -159,3 +159,24 @@ func specRel(opts []layers.TCPOption, a int, o int, isn uint32) uint32 {
 //@ ensures[C01.recv.fresh]  ret0 != nil ==> fresh(ret0)
 //@ ensures[C09.recv.state]  forall(k, 0, len(s.sendTimes), s.sendTimes[k] == old(s.sendTimes[k]))
 //@ modifies packets.FrameParser.IP4, packets.FrameParser.IP6, packets.FrameParser.TCP, packets.FrameParser.ICMP4, packets.FrameParser.ICMP6, packets.FrameParser.Payload, packets.FrameParser.Layers, gopacket.DecodingLayerParser, elems(s.buffer), ghost clock, ghost ioFail
+
+// C11 isolation: a selective ACK genuine for two SACK runs forces the same 4-tuple (one kernel connection each, so the
+// local port differs between runs); a time-exceeded genuine for both (relaxed mode) forces the two initial sequence
+// numbers to lie within 255 of each other — excluded by the stated assumption on kernel ISNs.
+func specIsolatedAck(a, b *sackDriver, p *packets.FrameParser) bool {
+	return !(specOnConn(a, p) && specOnConn(b, p)) || (a.params.Target == b.params.Target && a.localAddr == b.localAddr && a.localPort == b.localPort)
+}
+func specIsolatedTE(a, b *sackDriver, p *packets.FrameParser) bool {
+	ga := specFlowTE(a, p) && specInRange(a, specQuotedRel(a, p))
+	gb := specFlowTE(b, p) && specInRange(b, specQuotedRel(b, p))
+	d := a.state.localInitSeq - b.state.localInitSeq
+	return !(ga && gb) || d <= 255 || d >= 4294967041
+}
+
+//@ func specIsolatedAck
+//@ requires[pre.nonnil]   a != nil && b != nil && p != nil
+//@ ensures[C11.iso.sack.ack] ret0
+
+//@ func specIsolatedTE
+//@ requires[pre.nonnil]   a != nil && b != nil && p != nil && a.state != nil && b.state != nil
+//@ ensures[C11.iso.sack.te] ret0
